@@ -626,6 +626,14 @@ def r14_pairing(idx, r):
     pairing_rule(idx, r, ["armi.reactor.parameters", "armi.reactor.composites", "armi.reactor.components.component", "armi.reactor.grids.structuredGrid"], 80)
 
 
+def r15_serial_floor(idx, r):
+    """Objects created after a database load get fresh serial numbers: Database.load raises the global counter to the MAXIMUM serial in the
+    file (clause of R06.9) - the last object in layout order need not carry the largest one."""
+    from ..report import Only
+    from .c06 import r9_identity_floor
+    r9_identity_floor(idx, Only(r, ["load:serial-floor"]))
+
+
 def run(idx, chk):
     chk.explanation = (
         "C16: StateRetainer's enter/exit symmetry and traversal; every backUp/restoreBackup pair in the tree pushing and popping a stack with "
@@ -658,3 +666,5 @@ def run(idx, chk):
                  necessary="a refused mutation changes nothing; after a retain-state scope no value computed inside it is served")
     chk.run_rule("R16.14", "arguments stand at the parameter they are named after; sibling calls forward the same pass-through parameters", lambda r: r14_pairing(idx, r), floor=1,
                  necessary="the keep-set reaches restoreBackup")
+    chk.run_rule("R16.15", "Database.load raises the serial counter to the maximum stored serial (R06.9)", lambda r: r15_serial_floor(idx, r), floor=1,
+                 necessary="no two live objects share a serial number")
